@@ -99,4 +99,15 @@ def handleRoundtrip : List Sx → String
   | [_, _, .atom "PANIC"] => "no PROPFAIL C11 parsing a printed program panicked"
   | _ => "bad shape"
 
+/-- `( fsweep N BAD FIRST )`: the enumeration of the per-leaf hypothesis FloatPrintStable over f32 bit patterns
+(a test of `std` formatting and parsing, not a theorem): it must have found no unstable pattern -/
+def handleFsweep : List Sx → String
+  | [n, bad, .atom first] =>
+    match Codec.decNat n, Codec.decNat bad with
+    | some n, some bad =>
+      if bad == 0 && n > 0 then "ok N"
+      else "no PROPFAIL C11 " ++ toString bad ++ " of " ++ toString n ++ " float bit patterns do not print / parse / print to the same text; first: f" ++ first
+    | _, _ => "bad numbers"
+  | _ => "bad shape"
+
 end ParseDrv
